@@ -1276,6 +1276,13 @@ def translate_tree():
     fw = emit_world(fiber_classes, "gen", False)
     ww = emit_world(wrap_classes, "wrap", True)
 
+    gen_names = [w.names[id(m)] for w, cls in ((fw, fiber_classes), (ww, wrap_classes)) for c in cls for m in c.methods
+                 if m.name not in SKIP_METHODS and not (m.is_ctor and not m.init)]
+    out.append("(* every generated function, for [autounfold with c19gen] *)\n")
+    for i in range(0, len(gen_names), 6):
+        out.append("Global Hint Unfold %s : c19gen.\n" % " ".join(gen_names[i:i + 6]))
+    out.append("\n")
+
     # ---- overload tables per kind of T, by resolving the hierarchy the way the compiler does
     def table(w, top, targs, kind, name, wrapper):
         c = w.find(top, targs, kind)
